@@ -16,7 +16,7 @@ IMPL = os.path.join(HERE, "impl.py")
 NPROC = int(os.environ.get("VERIF_JOBS", "16"))
 
 MODEL_ONLY_FIELDS = re.compile(r" (spec|kd|total|det|order|tree|f04|ready)=\S+")
-IMPL_ONLY_FIELDS = re.compile(r" (shared)=\S+")
+IMPL_ONLY_FIELDS = re.compile(r" (shared|ja|jb|la|lb)=\S+")
 HOOK_SERIALS = re.compile(r"#[0-9?]+\+?")
 MODEL_ONLY_CMDS = ("(sem ", "(seqsem ")
 
